@@ -169,6 +169,19 @@ Theorem gr_index_is_position : forall t i k, gr_wf_from t i ->
 Proof. exact gr_find_index. Qed.
 Print Assumptions gr_index_is_position.
 
+(** a Vdata / Vgroup attached for reading refuses VSsetattr / Vsetattr (the access tests as the source has them);
+    SDgetdimscale reads, for an unlimited dimension of an HDF file, as many values as the dimension's own coordinate
+    variable holds (the file-type test as the source has it) *)
+Theorem setattr_refused_when_attached_for_reading : forall nf l fi name nt count data,
+  vs_setattr false nf l fi name nt count data = VFail /\ vg_setattr false l name nt count data = VFail.
+Proof. exact setattr_refused_for_reading_lemma. Qed.
+Print Assumptions setattr_refused_when_attached_for_reading.
+Theorem getdimscale_count : forall size fnr vnr,
+  (size <> 0 -> sd_getdimscale_count true size fnr vnr = size) /\ sd_getdimscale_count true 0 fnr vnr = vnr /\
+  sd_getdimscale_count false 0 fnr vnr = fnr.
+Proof. exact getdimscale_count_lemma. Qed.
+Print Assumptions getdimscale_count.
+
 (* ---- (4) lookups -------------------------------------------------------------------------------------- *)
 
 (** reference <-> index (SDidtoref / SDreftoindex) are mutually inverse when the NDG refs of the variables are
@@ -315,3 +328,11 @@ Example ex_loaded_state :
   let c := sd_saved (snd (run step init ops_plain)) in
   normalize c = c /\ reload (store c) = c /\ length (s_vars c) = 3%nat /\ length (s_dims c) = 2%nat.
 Proof. exact loaded_state_example. Qed.
+
+(** the number-type record of a variable: type code and class byte restore the HDF number type, little-endian
+    variants included (which field hdf_write_var tests for the little-endian bit is regenerated) *)
+Theorem nt_record_roundtrip : forall nt, nt_plain nt = true -> nt_decode (Z.land nt 255) (nt_class nt) = nt.
+Proof. exact nt_class_roundtrip. Qed.
+Print Assumptions nt_record_roundtrip.
+Example ex_nt_little_endian : nt_plain (DFNT_INT32 + DFNT_LITEND) = true /\ nt_class (DFNT_INT32 + DFNT_LITEND) = DFNTF_PC.
+Proof. vm_compute. split; reflexivity. Qed.
